@@ -108,7 +108,7 @@ CLAIMS = {
         'DESIGN.md section 5, C16',
     ),
     'C17': (
-        "Every harness of C01-C16 already fails on any reachable panic, arithmetic overflow, out-of-bounds index or invalid pointer dereference (Kani's built-in checks), including the unaligned SIMD loads. Additionally: the lemmas containing invariant!() are re-run with feature `unsafe`, where a violated invariant reaches unreachable_unchecked (reported by Kani); a reader that lies about the amount read must end in the slice-bounds panic and nothing else (kani::should_panic fails on any non-panic failure); the documented quartile() panic is confirmed; the serializers are run with a symbolic value and a symbolic buffer length 0..=N+64 (the C14 lemmas with symbolic length, which fail on any panic: a too-small or too-large caller buffer must give an error or a prefix write, never a panic). The MIR->SMT instance of C11 adds: no overflow and no slice-index / copy_from_slice panic in the prefix of update for every state of the invariant and every slice length below 2^63.",
+        "Every harness of C01-C16 already fails on any reachable panic, arithmetic overflow, out-of-bounds index or invalid pointer dereference (Kani's built-in checks), including the unaligned SIMD loads. Additionally: the lemmas containing invariant!() are re-run with feature `unsafe`, where a violated invariant reaches unreachable_unchecked (reported by Kani); a reader that lies about the amount read must end in the slice-bounds panic and nothing else (kani::should_panic fails on any non-panic failure); the documented quartile() panic is confirmed; the serializers are run with a symbolic value and a symbolic buffer length 0..=N+64 (the C14 lemmas with symbolic length, which fail on any panic: a too-small or too-large caller buffer must give an error or a prefix write, never a panic); the stream helper is run against every 3-step script of a contract-respecting reader (c12_script), none of which may panic. The MIR->SMT instance of C11 adds: no overflow and no slice-index / copy_from_slice panic in the prefix of update for every state of the invariant and every slice length below 2^63.",
         "Trusted: Kani's MIR->goto translation, CBMC 6.11 + CaDiCaL, the reference model in harness/refmodel.rs (independent table copies), the stubs listed per harness in the evidence (each a model of an unsupported intrinsic, a proved contract, or a caller-supplied trait impl). Limits of the engine, stated: no uninitialised-memory check, no aliasing model, no data races, no sanitizer observation; call sequences are covered by per-call totality from arbitrary valid states.",
         'Kani/CBMC bounded model checking (SAT) of the compiled MIR with symbolic inputs; lemma decomposition; plus symbolic execution of the nightly MIR dump into SMT-LIB2 decided by z3 and cvc5 for the loop-free prefix of update; native replay of counterexamples',
         'DESIGN.md section 5, C17',
